@@ -102,11 +102,17 @@ PF_REGRESSION = [
     'pf:N=3,n=3,mode=2,c=1,mt=1,wait=0', 'pf:N=3,n=4,mode=2,c=1,mt=2,wait=1', 'pf:N=3,n=3,mode=2,c=2,mt=0,wait=0',
     # dynamic no-wait tail (run by the last worker), stripes with tail, in-pool caller
     'pf:N=2,n=11,mode=1,mt=3,wait=0,g=2', 'pf:N=3,n=12,mode=1,wait=1,g=5', 'pf:N=3,n=6,mode=0,wait=1,inpool=1',
+    # the caller is a plain task on a worker of the same pool: caller-chunk selection by ring index, also with
+    # fewer chunks than pool threads (ring index beyond the chunk count)
+    'pf:N=3,n=9,mode=0,wait=1,inpool=1,mt=2', 'pf:N=3,n=2,mode=0,wait=1,inpool=1', 'pf:N=2,n=8,mode=1,wait=1,inpool=1,g=3',
 ]
 FE_REGRESSION = [
     # zero-thread pool, wait=false: staticChunkSize(n, 0) (C15)
     'fe:N=0,n=3,wait=0,mt=2', 'fe:N=0,n=5,wait=0,cat=1', 'fe:N=0,n=4,wait=0,cat=2,cts=1', 'fe:N=0,n=4,wait=1',
     'fe:N=2,n=7,wait=0,cat=2', 'fe:N=3,n=9,wait=1,cat=1,mt=3', 'fe:N=2,n=1,wait=0', 'fe:N=2,n=0,wait=0',
+    # the caller is a plain task on a worker of the same pool (it has a ring index of its own)
+    'fe:N=2,n=7,wait=1,cat=0,inpool=1', 'fe:N=3,n=9,wait=1,cat=0,inpool=1,mt=3', 'fe:N=3,n=5,wait=1,cat=0,inpool=1,mt=2',
+    'fe:N=3,n=6,wait=1,cat=1,inpool=1', 'fe:N=2,n=5,wait=0,cat=0,inpool=1',
 ]
 
 
